@@ -189,6 +189,11 @@ func cmdCheck(args []string) int {
 		if strings.HasSuffix(h.name, "_Q") && *tier == "thorough" {
 			continue
 		}
+		// _X: attempts that do not finish within the caps on the unchanged tree (solver unknown); kept
+		// for the record, run only when named explicitly
+		if strings.HasSuffix(h.name, "_X") && re == nil {
+			continue
+		}
 		hs = append(hs, h)
 	}
 	if len(hs) == 0 {
